@@ -30,6 +30,7 @@ RESULT_SPELLINGS = [
     ('Result<i32, errs::Failure>', True),
     ('Result<std::vec::Vec<u8>, std::string::String>', True),
     ('(Result<i32, String>)', True),
+    ('Result::<i32, String>', True),
 ]
 PLAIN_RETURNS = [('i32', False), ('String', False), ('Vec<u8>', False), ('Option<i32>', False), ('', False),
                  ('(i32, String)', False)]
@@ -51,6 +52,8 @@ def body_for(ret, is_async, awaits=1):
         return '{ %sSome(7) }' % pre
     if ret == '(i32, String)':
         return '{ %s(7, String::new()) }' % pre
+    if ret == 'std::io::Result<i32>':
+        return '{ %sif std::hint::black_box(true) { Ok(7) } else { Err(std::io::Error::other("e")) } }' % pre
     if ret == 'Result<i32, errs::Failure>':
         return '{ %sif std::hint::black_box(true) { Ok(7) } else { Err(errs::Failure) } }' % pre
     if ret == 'Result<std::vec::Vec<u8>, std::string::String>':
